@@ -468,11 +468,6 @@ impl<R: Read, TSpec> TagIterator<R, TSpec>
                         tag_start: next_tag.tag_start,
                         data_start: next_tag.data_start,
                     });
-
-                    if self.tag_ids_to_buffer.contains(&tag_id) {
-                        self.buffer_master(tag_id, next_tag.tag_start);
-                        return;
-                    }
                 }
             }
 
@@ -485,49 +480,49 @@ impl<R: Read, TSpec> TagIterator<R, TSpec>
         }
     }
 
-    fn buffer_master(&mut self, tag_id: u64, tag_start: usize) {
-        let pre_queue_len = self.emission_queue.len();
-
-        let mut position = pre_queue_len;
-        'endTagSearch: loop {
-            #[cfg(feature = "verif-hooks")] crate::verif::tick();
+    ///
+    /// Collects the children of the master whose `Start` was just taken from the front of the emission queue and rolls them up into a `Full` tag.
+    ///
+    /// This is driven from [`Iterator::next()`] rather than from `read_next()` so that a long run of buffered masters is handled one after the other instead of nesting one call per master.  Masters nested inside are rolled up by `roll_up_children`.
+    ///
+    fn buffer_master(&mut self, tag_id: u64, tag_start: usize) -> Result<(TSpec, usize), TagIteratorError> {
+        let mut position = 0;
+        let mut nested = 0;
+        loop {
             if position >= self.emission_queue.len() {
                 self.read_next();
-    
+
                 if position >= self.emission_queue.len() {
                     // The master is incomplete, so the children collected so far can't be emitted (same as when a child fails to parse)
-                    self.emission_queue.truncate(pre_queue_len);
-                    self.emission_queue.push_back(Err(TagIteratorError::UnexpectedEOF{ tag_start, tag_id: Some(tag_id), tag_size: None, partial_data: None }));
-                    return;
+                    self.emission_queue.clear();
+                    return Err(TagIteratorError::UnexpectedEOF{ tag_start, tag_id: Some(tag_id), tag_size: None, partial_data: None });
                 }
             }
 
-            while position < self.emission_queue.len() {
-                #[cfg(feature = "verif-hooks")] crate::verif::tick();
-                if let Some(r) = self.emission_queue.get(position) {
-                    match r {
-                        Err(_) => break 'endTagSearch,
-                        Ok(t) => {
-                            if t.0.get_id() == tag_id && matches!(t.0.as_master(), Some(Master::End)) {
-                                break 'endTagSearch;
-                            }
-                        }
+            match &self.emission_queue[position] {
+                Err(_) => {
+                    // A child failed to parse: the children before it can't be emitted, only the error
+                    self.emission_queue.drain(..position);
+                    if let Some(Err(error)) = self.emission_queue.pop_front() {
+                        return Err(error);
                     }
-                }
-                position += 1;
+                },
+                Ok(t) if t.0.get_id() == tag_id => {
+                    match t.0.as_master() {
+                        Some(Master::Start) => nested += 1,
+                        Some(Master::End) if nested == 0 => break,
+                        Some(Master::End) => nested -= 1,
+                        _ => {},
+                    }
+                },
+                Ok(_) => {},
             }
+            position += 1;
         }
 
-        let mut children = self.emission_queue.split_off(pre_queue_len);
-        let split_to = position - pre_queue_len;
-        if children.get(split_to).unwrap().is_ok() {
-            let remaining = children.split_off(split_to).into_iter().skip(1);
-            let full_tag = Self::roll_up_children(tag_id, children.into_iter().map(|c| c.unwrap().0).collect());
-            self.emission_queue.push_back(Ok((full_tag, tag_start)));
-            self.emission_queue.extend(remaining);
-        } else {
-            self.emission_queue.extend(children.drain(split_to..).take(1));
-        }
+        let children = self.emission_queue.drain(..position).map(|c| c.map(|t| t.0)).collect::<Result<Vec<_>, _>>()?;
+        self.emission_queue.pop_front();
+        Ok((Self::roll_up_children(tag_id, children), tag_start))
     }
 
     fn roll_up_children(tag_id: u64, children: Vec<TSpec>) -> TSpec {
@@ -603,7 +598,12 @@ impl<R: Read, TSpec> Iterator for TagIterator<R, TSpec>
         if self.emission_queue.is_empty() {
             self.read_next();
         }
-        let next_item = self.emission_queue.pop_front();
+        let next_item = match self.emission_queue.pop_front() {
+            Some(Ok((tag, tag_start))) if matches!(tag.as_master(), Some(Master::Start)) && self.tag_ids_to_buffer.contains(&tag.get_id()) => {
+                Some(self.buffer_master(tag.get_id(), tag_start))
+            },
+            item => item,
+        };
         if let Some(Ok(ref tuple)) = next_item {
             self.last_emitted_tag_offset = tuple.1;
         }
